@@ -141,6 +141,22 @@ fn mk_external(case: &Value) -> Option<ExternalLinterCb> {
     if let Some(ds) = ext["diags"].as_array() {
       for d in ds {
         let range = match (d["start"].as_u64(), d["end"].as_u64()) {
+          // "foreign": the diagnostic points into ANOTHER (longer) text, e.g. the document the script was cut out of
+          (Some(s), Some(e)) if d["foreign"].as_bool().unwrap_or(false) => {
+            let pad = d["foreign_pad"].as_u64().unwrap_or(64) as usize;
+            let other = deno_ast::SourceTextInfo::from_string(format!(
+              "{}\n{}",
+              "x\n".repeat(pad),
+              ti.text_str()
+            ));
+            let b2 = other.range().start;
+            let off = 2 * pad + 1;
+            Some(LintDiagnosticRange {
+              text_info: other,
+              range: SourceRange::new(b2 + off + s as usize, b2 + off + e as usize),
+              description: None,
+            })
+          }
           (Some(s), Some(e)) => Some(LintDiagnosticRange {
             text_info: ti.clone(),
             range: SourceRange::new(base + s as usize, base + e as usize),
